@@ -9,6 +9,7 @@ import (
 	"reflect"
 	"runtime"
 	"strconv"
+	"strings"
 	"sync"
 	"syscall"
 	"time"
@@ -55,6 +56,10 @@ type Engine struct {
 	Retag   string
 	// statistics of the case, used for the non-triviality rule
 	nUnaligned, nMut, nReopen, nStraddle, nWrites int
+	// freed: short names of snapshots that were deleted (a later snapshot may be given such a name again, as a
+	// rotating "daily" snapshot would); ForceName: replay
+	freed     []string
+	ForceName string
 }
 
 var holeOnce sync.Once
@@ -341,6 +346,15 @@ func (e *Engine) Snapshot(user bool) {
 	}
 	name := fmt.Sprintf("s%d", e.M.NextSnap)
 	e.M.NextSnap++
+	if e.ForceName != "" {
+		name, e.ForceName = e.ForceName, ""
+	} else if len(e.freed) > 0 && e.R.Chance(45) {
+		// the name of a deleted snapshot is used again
+		k := e.R.Intn(len(e.freed))
+		name = e.freed[k]
+		e.freed = append(e.freed[:k], e.freed[k+1:]...)
+		e.Res.Count("snapshots_reusing_a_deleted_name", 1)
+	}
 	op := e.rec(Op{K: "snapshot", Name: name, User: user})
 	err := e.Srv.Snapshot(name, user, now())
 	e.nMut++
@@ -394,6 +408,7 @@ func (e *Engine) Remove(i int, raw bool) {
 	}
 	e.Res.Count("removals", 1)
 	e.M.Fold(i, raw)
+	e.freed = append(e.freed, strings.TrimSuffix(strings.TrimPrefix(x.Name, "volume-snap-"), ".img"))
 }
 
 // MarkRemoved is the user deletion request: it only marks the snapshot.
@@ -723,6 +738,13 @@ func (e *Engine) Check(deep bool) {
 	runtime.GC()
 }
 
+func max0(i int) int {
+	if i < 0 {
+		return 0
+	}
+	return i
+}
+
 func (e *Engine) checkChain(when string) {
 	r := e.Srv.Replica()
 	if r == nil {
@@ -761,6 +783,30 @@ func (e *Engine) checkChain(when string) {
 		if d.UserCreated != c.User || d.Removed != c.Removed {
 			e.Fail("C12", "chain:attrs-differ:"+e.lastMut(), fmt.Sprintf("%s: usercreated=%v removed=%v, model %v %v", c.Name, d.UserCreated, d.Removed, c.User, c.Removed))
 			return
+		}
+	}
+	// the links reported per member describe the same path: chain[i]'s parent is chain[i+1] (none for the base), and
+	// among its children exactly one is a chain member, chain[i-1] (disks outside the live chain - left behind by a
+	// revert - may hang off a member as further children)
+	inChain := map[string]int{}
+	for i, n := range chain {
+		inChain[n] = i
+	}
+	for i, n := range chain {
+		d := disks[n]
+		wantParent := ""
+		if i+1 < len(chain) {
+			wantParent = chain[i+1]
+		}
+		if d.Parent != wantParent {
+			e.Fail("C12", "chain:parent-link-differs:"+e.lastMut(), fmt.Sprintf("%s: %s reports parent %q, the chain %v says %q", when, n, d.Parent, chain, wantParent))
+			return
+		}
+		for _, ch := range d.Children {
+			if j, ok := inChain[ch]; ok && j != i-1 {
+				e.Fail("C12", "chain:child-link-differs:"+e.lastMut(), fmt.Sprintf("%s: %s reports the chain member %s as its child, but in the chain %v its only child is %v", when, n, ch, chain, chain[max0(i-1):i]))
+				return
+			}
 		}
 	}
 	e.Res.Count("chain_checks", 1)
